@@ -22,6 +22,7 @@ system over ALL schedules; go-stomp's hand-over for "Unsubscribe returns"). The 
 import FV.Model.PubSub
 import FV.Proofs.PubSub
 import FV.Proofs.Context
+import FV.Generated.Locks
 
 namespace FV.C07
 open FV FV.Thrift FV.PubSub
@@ -490,5 +491,14 @@ example : (run exCfg [116] St.init [.publish ⟨[116], ⟨[1], .garbage⟩⟩, .
 /-- The fixed order reaches `closed` from 3 messages in flight with capacity 2. -/
 example : (srun (Stomp.waiting 2 3 false) [.handOver, .handOver, .drain, .handOver, .receipt]).map (·.closed) = some true := by
   decide
+
+/-- **Lock discipline behind the model's atomic steps** (subscriber open mutex), decided by the kernel on facts
+REGENERATED from lib/go's source on every check (harness/locks → FV/Generated/Locks.lean): no function
+calls, while it holds one of these mutexes, anything that (transitively) acquires the same mutex, no
+lexical re-lock, and every path out of a function releases what the function locked. This is what makes a
+critical section ONE step of the model and rules out the self-deadlocks (a second RLock behind a queued
+writer, SendError under SendReply's lock) and leaked locks that would wedge every later request. -/
+theorem c07_lock_discipline :
+    FV.Locks.ok [7] FV.Generated.Locks.mutexTags FV.Generated.Locks.facts = true := by decide +kernel
 
 end FV.C07
